@@ -19,7 +19,10 @@ for name in "$@"; do
   fi
   mkdir -p "$wt.out"
   t0=$(date +%s)
-  (cd /verif && VERIF_REPO="$wt" VERIF_OUT="$wt.out" PYTHONPATH="$wt" timeout 5400 ./run_check.sh "$pid" quick > "$logdir/$name.log" 2>&1); rc=$?
+  # seeded/<name>/filter.txt: restrict the run to matching instances (used
+  # where the change makes the full quick tier take an hour)
+  filt=""; [ -f "$dir/filter.txt" ] && filt="$(cat "$dir/filter.txt")"
+  (cd /verif && VERIF_REPO="$wt" VERIF_OUT="$wt.out" PYTHONPATH="$wt" timeout 3600 ./run_check.sh "$pid" quick $filt > "$logdir/$name.log" 2>&1); rc=$?
   t1=$(date +%s)
   echo "$name exit=$rc $((t1-t0))s $(grep -c '^VIOLATION' "$logdir/$name.log") violations"
   git -C /repo worktree remove --force "$wt" >/dev/null 2>&1; rm -rf "$wt.out"
